@@ -189,9 +189,9 @@ class GaussianMatrixParameterConstraint(ParameterConstraint):
                 raise ValueError("If matrix_type is cor uncertainties must be specified!")
             if relative:
                 self._uncertainties_abs = None
-                self._uncertainties_rel = uncertainties
+                self._uncertainties_rel = np.array(uncertainties)
             else:
-                self._uncertainties_abs = uncertainties
+                self._uncertainties_abs = np.array(uncertainties)
                 self._uncertainties_rel = None
 
         self._matrix_type = matrix_type
